@@ -153,8 +153,8 @@ def _history(case):
         if s not in seen:
             seen.add(s)
             viol.append((s, f"shape {shape}: {hist} raised {err}"))
-    if res["raises_alone"]:
-        raise RuntimeError(f"harness: operations {res['raises_alone']} raise on a fresh state")
+    for n_ in res["raises_alone"]:
+        viol.append((f"{ID}|history|{n_.split('(')[0]}|raises-in-a-fresh-process", f"shape {shape}: {n_} raised {res['raises_alone_msg'][n_]}"))
     if res["nondeterministic"]:
         viol.append((f"{ID}|history|not-reproducible", f"operations {res['nondeterministic']} differ between two fresh runs"))
     return {"nontrivial": True, "outcome": f"history|{'viol' if viol else 'ok'}", "viol": viol,
